@@ -142,14 +142,14 @@ THEOREMS = {
     "C15": dict(module="HH.Props.C15", trusted=MODEL_TRUST, theorems=[
         ("HH.C15.interleave_independent", "∀ interleavings of two op families over disjoint handle sets: a family's outputs = its isolated run's outputs"),
         ("HH.C15.outputs_depend_on_own_handles", "outputs of a history depend only on the handles it names"),
-        ("HH.C15.no_global_state", "regenerated source facts: no static, thread_local!/lazy_static!, Cell/Atomic/Mutex/Once type, no extern block anywhere in src/"),
+        ("HH.C15.no_global_state", "regenerated source facts: no `static mut`, thread_local!/lazy_static!, Cell/Atomic/Mutex/Once/Lazy type, no extern block anywhere in src/ outside tests (immutable static tables allowed)"),
     ]),
     "C16": dict(module="HH.Props.C16", trusted=["syn-based source-facts translator /verif/harness/facts (facts, not judgement; re-run on /repo/src in this run)", "rustc's forbid(unsafe_code) lint for the supporting compile check"], theorems=[
         ("HH.C16.no_unsafe", "no `unsafe` token (incl. macro bodies) in lib/portable/internal/key/traits/macros/hash.rs, any cfg branch"),
         ("HH.C16.no_lint_override", "no lint attribute in those files mentions unsafe_code except to deny/forbid it"),
         ("HH.C16.lib_denies_unsafe", "lib.rs carries an unconditional #![deny(unsafe_code)]"),
         ("HH.C16.no_unsafe_attr_or_extern", "no unsafe attribute, foreign block or raw-pointer construct in those files"),
-        ("HH.C16.module_closure", "the files PortableHash executes import only crate::{internal,key,traits,portable}::, core::, super:: paths"),
+        ("HH.C16.module_closure", "every file reachable from PortableHash's files in the crate's module graph (use items, crate::/super:: paths incl. calls and macro bodies, root re-exports resolved, submodule declarations; all cfg branches, tests excluded) is free of unsafe tokens/attributes/foreign blocks/raw pointers/lint re-allows"),
         ("HH.C16.macro_closure", "macros they invoke are the crate's own two + core assertion macros"),
         ("HH.C16.no_path_redirect", "no #[path] redirection of the crate root's modules"),
         ("HH.C16.table_nontrivial", "the regenerated table is non-empty and sees the unsafe code of builder.rs"),
@@ -165,8 +165,7 @@ THEOREMS = {
     "C18": dict(module="HH.Props.C18Facts", trusted=["source-facts translator", "counting #[global_allocator] in the native runner"], theorems=[
         ("HH.C18.no_alloc_names", "no allocation-capable name outside #[cfg(test)] anywhere in src/"),
         ("HH.C18.no_extern_crate", "no extern crate (no alloc crate)"),
-        ("HH.C18.std_paths", "the only std paths are ::std::io::Write / ::std::io::Result of the adapter macro"),
-        ("HH.C18.std_gates", "feature=std gates only in lib.rs, macros.rs, builder.rs, x86/sse.rs, x86/avx.rs"),
+        ("HH.C18.std_paths", "every path into std (any cfg branch, tests excluded) names a core re-export module or one of io::{Write, Result, IoSlice, IoSliceMut, ErrorKind}: nothing that can allocate (env, fs, vec, string, collections, io::Error::new/other, ...)"),
     ]),
 }
 
